@@ -208,6 +208,15 @@ func (s *story) joinPhase(op string) (in bool) {
 		s.add(step{Op: "kick"})
 		s.add(step{Op: "barrier"})
 		return false
+	case v < 19: // the room refuses and the caller gives up at the same moment
+		s.shape = append(s.shape, 'Y')
+		l := s.launch(op)
+		s.add(step{Op: "seen", Label: l})
+		s.add(step{Op: "error", Label: l, Cond: roomErrors[r.Intn(len(roomErrors))][1]})
+		s.add(step{Op: "cancel", Label: l})
+		s.add(step{Op: "await", Label: l, Must: true})
+		s.add(step{Op: "barrier"}) // the serve loop must have got rid of the reply
+		return false
 	default: // error and self-presence both arrive
 		s.shape = append(s.shape, 'B')
 		l := s.launch(op)
@@ -260,7 +269,7 @@ func (s *story) inRoom() (stillIn bool) {
 			s.add(step{Op: "barrier"})
 		}
 	}
-	switch v := r.Intn(10); {
+	switch v := r.Intn(12); {
 	case v < 4: // leave, the room confirms
 		s.shape = append(s.shape, 'L')
 		l := s.launch("leave")
@@ -275,7 +284,16 @@ func (s *story) inRoom() (stillIn bool) {
 		s.add(step{Op: "error", Label: l, Cond: roomErrors[r.Intn(len(roomErrors))][1]})
 		s.add(step{Op: "await", Label: l, Must: true})
 		return true
-	case v < 6: // leave, given up
+	case v < 7: // leave refused while the caller gives up
+		s.shape = append(s.shape, 'y')
+		l := s.launch("leave")
+		s.add(step{Op: "seen", Label: l})
+		s.add(step{Op: "error", Label: l, Cond: roomErrors[r.Intn(len(roomErrors))][1]})
+		s.add(step{Op: "cancel", Label: l})
+		s.add(step{Op: "await", Label: l, Must: true})
+		s.add(step{Op: "barrier"})
+		return true
+	case v < 8: // leave, given up
 		s.shape = append(s.shape, 'c')
 		l := s.launch("leave")
 		if r.Intn(2) == 0 {
@@ -284,7 +302,7 @@ func (s *story) inRoom() (stillIn bool) {
 		s.add(step{Op: "cancel", Label: l})
 		s.add(step{Op: "await", Label: l, Must: true})
 		return true
-	case v < 8: // kicked
+	case v < 10: // kicked
 		s.shape = append(s.shape, 'K')
 		s.add(step{Op: "kick"})
 		return false
